@@ -614,7 +614,7 @@ def _w_ground(item):
     return res.as_dict()
 
 
-GROUND_NAMES = ["get_parities_from_measurements", "representing_distribution", "save_distribution", "save_operator", "save_circuit", "sample_from_wavefunction", "exact_expectation", "estimate_by_averaging", "save_wavefunction", "Measurements.save"]
+GROUND_NAMES = ["circuit_constructor_copies", "flip_amplitudes", "expectation_values_views", "measurements_views_on_caller_list", "get_parities_from_measurements", "representing_distribution", "save_distribution", "save_operator", "save_circuit", "sample_from_wavefunction", "exact_expectation", "estimate_by_averaging", "save_wavefunction", "Measurements.save"]
 
 
 def ground_bad(name):
@@ -638,6 +638,33 @@ def ground_bad(name):
 
     try:
         op = PauliSum([PauliTerm({0: "Z"}, 0.5), PauliTerm({0: "Z", 1: "Z"}, -1.5), PauliTerm({}, 2.0)])
+        if name == "circuit_constructor_copies":
+            from orquestra.quantum.circuits import Circuit
+
+            ops = [CS.op_from_spec(("RX(x)", (0,))), CS.op_from_spec(("CNOT", (0, 1)))]
+            c = Circuit(ops)
+            bad = check({"operations": ops, "circuit": c, "extra": CS.op_from_spec(("H", (1,)))}, lambda o: (o["circuit"] + o["extra"], o["circuit"].inverse(), o["circuit"].bind({CS.S("x"): 0.5}), list(o["circuit"].operations)))
+            if bad:
+                return bad
+            ops.append(CS.op_from_spec(("H", (1,))))
+            if len(c.operations) != 2:
+                return "a circuit changed when the list it was built from was extended afterwards"
+            return None
+        if name == "flip_amplitudes":
+            from orquestra.quantum.wavefunction import flip_amplitudes, flip_wavefunction, Wavefunction
+
+            arr = np.array([0.5, 0.5j, -0.5, 0.5], dtype=complex)
+            return check({"array": arr, "list": [0.5, 0.5j, -0.5, 0.5], "wf": Wavefunction(arr.copy())}, lambda o: (flip_amplitudes(o["array"]).tolist(), flip_amplitudes(o["list"]).tolist(), flip_wavefunction(o["wf"]).amplitudes.tolist()))
+        if name == "expectation_values_views":
+            from orquestra.quantum.measurements import ExpectationValues, Parities, get_expectation_values_from_parities
+
+            ev = ExpectationValues(np.array([0.5, -0.25]), [np.array([[1.0, 0.5], [0.5, 1.0]])], [np.array([[0.1, 0.0], [0.0, 0.2]])])
+            par = Parities(np.array([[3, 1], [2, 2]]), [np.array([[[4, 0], [3, 1]], [[3, 1], [4, 0]]])])
+            return check({"expectation_values": ev, "parities": par}, lambda o: (o["expectation_values"].to_dict(), o["parities"].to_dict(), get_expectation_values_from_parities(o["parities"]).values.tolist()))
+        if name == "measurements_views_on_caller_list":
+            shots = [(0, 1), (1, 1), (0, 1)]
+            m = Measurements(shots)
+            return check({"shots": shots, "measurements": m, "op": op}, lambda o: (o["measurements"].get_counts(), o["measurements"].get_distribution().distribution_dict, o["measurements"].get_expectation_values(o["op"]).values.tolist()))
         if name == "get_parities_from_measurements":
             return check({"shots": [(0, 1), (1, 1), (0, 0)], "op": op}, lambda o: get_parities_from_measurements(o["shots"], o["op"]).values.tolist())
         if name == "representing_distribution":
